@@ -184,6 +184,9 @@ def names_for(src, size, intkeys):
         n['L'] = [D(i) for i in range(size)]
     if 'Dd' in src:
         n['Dd'] = {(i if intkeys else str(i)): D(i) for i in range(size)}
+        if intkeys == 'dd':
+            import collections
+            n['Dd'] = collections.defaultdict(lambda: D(0), {str(i): D(i) for i in range(size)})    # a host mapping whose __missing__ inserts
     if 'big' in src:
         n['big'] = [D(i) for i in range(CAP)]
     if 'bigd' in src:
@@ -204,7 +207,7 @@ def cases(ctx):
                 yield ('src', op, size, False)
             n += 1
         for op in DICT_OPS:
-            for ik in (False, True):
+            for ik in (False, True, 'dd'):
                 if n % ctx.nshards == ctx.shard:
                     yield ('src', op, size, ik)
                 n += 1
